@@ -106,14 +106,35 @@ fn bus_class<S: Setup>(prog: &Prog, p: &Pipeline<S>, cfg: &PackCfg) -> Option<St
         .filter(|a| !npo_slots.contains(&a.slot))
         .map(|a| {
             let c = p3r_verif::bus::anomaly_class(&built.circuit, a.slot);
-            if c == "other" { format!("other/{}", a.pattern) } else { c }
+            // imbalance shape (creator rows, sign of the net multiplicity), as in C09: a different
+            // defect on the same kind of slot must not be absorbed by a listed finding
+            let shape = a.pattern.splitn(2, "/creators=").nth(1).map(|r| format!("creators={r}")).unwrap_or_default();
+            if c == "other" {
+                format!("other/{}", a.pattern)
+            } else if c.starts_with("first-use") {
+                c
+            } else {
+                format!("{c}/{shape}")
+            }
         })
         .collect();
     classes.sort();
     classes.dedup();
     // unknown classes first, so that a new kind of imbalance is never hidden behind a known one
+    // shapes the pinned tree produces for the three shaped classes (the C09 list)
+    const LISTED_SHAPES: [&str; 9] = [
+        "horner-referenced/creators=0/net=-",
+        "horner-referenced/creators=1/net=+",
+        "horner-referenced/creators=2/net=+",
+        "horner-referenced/creators=3/net=+",
+        "multi-leaf-class/creators=0/net=-",
+        "multi-leaf-class/creators=1/net=+",
+        "multi-leaf-class/creators=2/net=+",
+        "multi-leaf-class/creators=3/net=+",
+        "solved-operand-of-private-out/creators=0/net=-",
+    ];
     let prio = |c: &String| -> usize {
-        if c.starts_with("other") {
+        if c.starts_with("other") || (!c.starts_with("first-use") && !LISTED_SHAPES.contains(&c.as_str())) {
             0
         } else if c.starts_with("solved-operand") {
             1
